@@ -140,7 +140,10 @@ def run(ck):
             a = vlib.sh([impl], inp=cmd + "\n")[1].strip()
             if cmd[0] == "S":
                 t = a.split(); n = int(t[4]) if len(t) > 4 else 0
-                mcmd = "S %d %s" % (n, " ".join("%s %s %s" % tuple(t[6 + 5 * i: 9 + 5 * i]) for i in range(n)))
+                ct = cmd.split()
+                mcmd = "T %d %s %s" % (n, t[2] if len(t) > 2 else "0", " ".join(
+                    "%s %s %s %d %s %s %s" % (t[5 + 5 * i], t[6 + 5 * i], t[7 + 5 * i], int(ct[2 + 4 * int(t[5 + 5 * i]) + 2]) & 1, t[8 + 5 * i],
+                                              ct[2 + 4 * int(t[5 + 5 * i]) + 3], t[9 + 5 * i]) for i in range(n)))
             else:
                 mcmd = cmd + " " + argstack_of(a) if cmd[0] == "F" else cmd
             m = vlib.sh([model], inp=mcmd + "\n")[1].strip()
@@ -162,7 +165,22 @@ def run(ck):
     if isinstance(ri, tuple):
         ck.violation("C07/harness-crash", "harness failed: %s" % (ri,), {"commands": cmds[:3], "detail": str(ri), "broken": "harness"}, no_input=True)
         ri = []
-    mcmds = [c + " " + argstack_of(a) for c, a in zip(cmds, ri)]
+    # which tree variant is this?  (fixes/C07-a64-sa-register.patch: FP-relative argument offset + SA register initialisation on AArch64)
+    pr = vlib.sh([impl], inp="F 2 0 0 9 1 0 0 0 0 0 0 0 0 255\nF 2 0 0 9 0 0 0 0 0 0 0 0 0 9\n")[1].split("\n")
+    p1 = c07_oracle.parse_answer(pr[0]) if pr and pr[0] else None
+    p2 = c07_oracle.parse_answer(pr[1]) if len(pr) > 1 and pr[1] else None
+    v1 = p1 is not None and p1["sa_from_sa"] == p1["pp_size"] and p1["pp_size"] != 8
+    v2 = p2 is not None and any(x.startswith("mov G8.9,G8.31") for x in p2["P"])
+    sa_fix = 1 if (v1 and v2) else 0
+    if v1 != v2:
+        ck.violation("C07/a64/variant-probe-inconsistent", "AArch64 SA-register handling is half-fixed: FP-relative offset fixed=%s, SA register initialised=%s" % (v1, v2),
+                     {"command": "F 2 0 0 9 1 0 0 0 0 0 0 0 0 255", "impl": pr[0], "broken": "tree variant probe"}, no_input=True)
+    ck.log("tree variant: a64 SA-register fix %s" % ("present" if sa_fix else "absent"))
+    # fixes/C07-finalize-too-large.patch: does finalize refuse frames whose sizes wrap the 32-bit arithmetic?
+    pb = vlib.sh([impl], inp="F 1 0 0 2 0 8 0 0 0 4294967232 0 4096 0 255\n")[1]
+    too_large_fix = " L ?" in pb
+    ck.log("tree variant: finalize kTooLarge check %s" % ("present" if too_large_fix else "absent"))
+    mcmds = [c + " " + argstack_of(a) + " 0 %d" % sa_fix for c, a in zip(cmds, ri)]
     rm = run_sharded(model, mcmds) if ri else []
     if isinstance(rm, tuple):
         ck.violation("C07/model-crash", "model driver failed: %s" % (rm,), {"commands": mcmds[:3], "detail": str(rm), "broken": "model driver"}, no_input=True)
@@ -174,7 +192,53 @@ def run(ck):
         verdicts = pool.map(_judge, [(c, a, ck.seed) for c, a in zip(cmds, ri)], chunksize=256)
     ck.log("oracle judged %d frames" % len(verdicts))
 
-    stats = {"arch": {}, "cc": {}, "refused_by_callconv": 0, "refused_by_emitter": 0, "asm_error": 0, "has_da": 0, "has_fp": 0,
+    # the implementation's instruction lists executed on the PROVEN machine (FrameExec.exec_frame, extracted): same scenario as the
+    # python interpreter (hostile confined body); the two semantics must reach the same verdict on every frame
+    ecmds, eidx = [], []
+    for idx, (c, a) in enumerate(zip(cmds, ri)):
+        pa = c07_oracle.parse_answer(a)
+        if pa is None or pa["P_berr"] or pa["E_berr"]:
+            continue
+        t = c.split()
+        arch = int(t[1])
+        natural = pa["natural"]
+        ras = 0 if arch == 2 else (4 if arch == 0 else 8)
+        sp0 = (0x7FFF0000 if arch == 0 else 0x7FFFFFFF0000) - natural * (idx % 64) - ras
+        cleanup = pa["argstack"] if c07_oracle.callee_pops(arch, int(t[2]), int(t[3])) else 0
+        lsz = min(int(t[10]), 1 << 40)
+        ecmds.append("E %d %d %d %s %s %s %d %s %d %d %d | %s | %s" % (
+            arch, sp0, 0x7123456789 & ((1 << (8 * (4 if arch == 0 else 8))) - 1) | 1, " ".join(t[6:10]), " ".join(str(x) for x in pa["preserved"]),
+            " ".join(str(x) for x in pa["srsize"]), int(t[5]) & 1, t[12], pa["local_off"], lsz, cleanup, ";".join(pa["P"]) or "-", ";".join(pa["E"]) or "-"))
+        eidx.append(idx)
+    re_ = run_sharded(model, ecmds) if ecmds else []
+    exec_stats = {"frames": len(ecmds), "ok": 0, "failed": 0, "disagree_with_interpreter": 0, "unparsed": 0}
+    ROUNDTRIP_KEYS = ("callee-saved-not-restored", "wrong-return-address", "wrong-sp-after-return", "misaligned-vector-move", "unencodable-register",
+                      "no-return", "body-sp-misaligned", "non-cdecl-vec-save-64-of-128", "after-ret", "unknown-form", "unknown-instruction")
+    if isinstance(re_, tuple):
+        ck.violation("C07/exec/model-crash", "model driver failed on E commands: %s" % (re_,), {"commands": ecmds[:1], "broken": "model driver"}, no_input=True)
+    else:
+        for idx, ec, ea in zip(eidx, ecmds, re_):
+            code = int(ea.split()[1])
+            keys = [k.split("/")[-1] for (k, _w) in verdicts[idx] if k != "refused"]
+            t = cmds[idx].split()
+            if int(t[10]) + int(t[12]) > 0x7FFF0000:
+                continue
+            if code == -1:
+                exec_stats["unparsed"] += 1
+            elif code == 0:
+                exec_stats["ok"] += 1
+            else:
+                exec_stats["failed"] += 1
+            rt = [k for k in keys if k in ROUNDTRIP_KEYS]
+            # a64: an sp-misaligned access or an unencodable stp offset is seen by one side only in special cases; compare the core verdict
+            if (code > 0) != bool(rt) and not (code > 0 and keys) and not (code == 0 and rt == ["body-sp-misaligned"] and int(t[1]) != 2):
+                exec_stats["disagree_with_interpreter"] += 1
+                ck.violation("C07/exec/semantics-disagree", "%s -> the proven machine (FrameExec.exec_frame) says %s, the independent interpreter says %s"
+                             % (cmds[idx], ea, keys or "property holds"), {"command": cmds[idx], "impl": ri[idx], "exec": ec[:300], "machine": ea})
+            elif code > 0 and not keys:
+                pass
+
+    stats = {"proven_machine_runs": exec_stats, "arch": {}, "cc": {}, "refused_by_callconv": 0, "refused_by_emitter": 0, "asm_error": 0, "has_da": 0, "has_fp": 0,
              "vec_saves": 0, "callee_pops": 0, "oracle_keys": {}}
     disagreements = 0
     nontrivial = set()
@@ -189,6 +253,23 @@ def run(ck):
         if pa is None:
             stats["refused_by_callconv"] += 1
         else:
+            # explicit coverage counters: which theorem covers this frame, and the feature matrix
+            sc = stats.setdefault("theorem_scope", {"roundtrip_x86": 0, "roundtrip_a64": 0, "a64_outside_scope(findings)": 0, "out_of_range(no_wrap)": 0,
+                                                     "refused_by_emitter": 0})
+            if int(t[10]) + int(t[12]) > 0x7FFF0000:
+                sc["out_of_range(no_wrap)"] += 1
+            elif pa["P_berr"] or pa["E_berr"]:
+                sc["refused_by_emitter"] += 1
+            elif arch != 2:
+                sc["roundtrip_x86"] += 1
+            elif cc <= 7 and pa["final_align"] <= 16 and pa["sa_reg"] == 31:
+                sc["roundtrip_a64"] += 1
+            else:
+                sc["a64_outside_scope(findings)"] += 1
+            fm = stats.setdefault("feature_matrix", {})
+            feat = "%s fp=%d da=%d extra_saves=%d sa_reg=%s pops=%d" % (["x86", "x64", "a64"][arch], int(t[5]) & 1, pa["has_da"], 1 if pa["ex_size"] else 0,
+                                                                   "sp" if pa["sa_reg"] == pa["sp_reg"] else "other", 1 if pa["cleanup"] else 0)
+            fm[feat] = fm.get(feat, 0) + 1
             if pa["P"] or len(pa["E"]) > 1:
                 if len(pa["P"]) >= 1:
                     nontrivial.add(c)
@@ -197,13 +278,28 @@ def run(ck):
             stats["callee_pops"] += 1 if pa["cleanup"] else 0
             if pa["P_aerr"] or pa["E_aerr"]:
                 stats["asm_error"] += 1
-                if not (arch == 2 and cc > 7) and not (pa["P_berr"] or pa["E_berr"]):
+                if not (arch == 2 and cc > 7) and not (pa["P_berr"] or pa["E_berr"]) and int(t[10]) + int(t[12]) <= 0x7FFF0000:
                     # the assembler refuses an instruction of a prolog/epilog outside the known-broken AArch64 conventions
                     ck.violation("C07/%s/assembler-refuses-prolog" % ["x86", "x64", "a64"][arch],
                                  "%s -> the Assembler returned error %d/%d for the emitted prolog/epilog" % (c, pa["P_aerr"], pa["E_aerr"]),
                                  {"command": c, "impl": a, "model": m})
         vs = verdicts[idx]
         found_input = False
+        out_of_range = int(t[10]) + int(t[12]) > 0x7FFF0000     # outside C07_no_wrap's bound: the model's integers are not uint32_t
+        if out_of_range:
+            stats["out_of_range"] = stats.get("out_of_range", 0) + 1
+            refused = (pa is None and " L ?" in a) or (pa is not None and (pa["P_aerr"] or pa["E_aerr"] or pa["P_berr"] or pa["E_berr"]))
+            if too_large_fix and pa is not None:
+                ck.violation("C07/%s/oversized-frame-accepted" % ["x86", "x64", "a64"][arch], "%s -> finalize accepted call+local sizes above 0x7FFF0000" % c,
+                             {"command": c, "impl": a})
+            if not refused:
+                for (k, w) in vs:
+                    if k != "refused":
+                        kk = "C07/%s/frame-arithmetic-wraps" % ["x86", "x64", "a64"][arch]
+                        stats["oracle_keys"][kk] = stats["oracle_keys"].get(kk, 0) + 1
+                        ck.violation(kk, w, {"command": c, "impl": a})
+                        break
+            continue
         for (k, w) in vs:
             if k == "refused":
                 stats["refused_by_emitter"] += 1
@@ -220,6 +316,63 @@ def run(ck):
                              "found no violated property on this frame\n impl : %s\n model: %s" % (c, fld, canon_impl(a)[:700], m[:700]),
                              {"command": c, "impl": a, "model": m, "broken": "correspondence of Frame model (coq/theories/Frame/FrameModel.v) with /repo"},
                              no_input=True)
+
+    # frames the Compiler really produces (functions with register pressure, spills, calls, stack arguments, local stack)
+    ncomp = 1500 if ck.tier == "quick" else 40000
+    ccmds = []
+    for _ in range(ncomp):
+        arch = rng.choice([0, 1, 1, 2, 2])
+        plat = rng.choice([0, 1, 2])
+        cc = rng.choice([0, 0, 0, 1, 2, 3] if arch != 2 else [0])
+        ccmds.append("C %d %d %d 0 0 0 0 0 0 0 0 0 0 255 %d" % (arch, plat, cc, rng.getrandbits(40)))
+    rc_ = run_sharded(impl, ccmds)
+    comp_stats = {"functions": len(ccmds), "compiled": 0, "errors": 0, "instructions": 0, "sp_accesses": 0, "with_spills_or_locals": 0, "with_calls": 0,
+                  "with_stack_args": 0, "disagreements": 0, "by_arch": {}}
+    if isinstance(rc_, tuple):
+        ck.violation("C07/compiled/harness-crash", "harness failed on compiled-frame commands: %s" % (rc_,), {"commands": ccmds[:2], "broken": "harness"}, no_input=True)
+    else:
+        good = [(c, a.split(" | ")) for c, a in zip(ccmds, rc_) if a.startswith("C 0 | ")]
+        comp_stats["errors"] = len(ccmds) - len(good)
+        mcs = ["F " + parts[1] + " 1 %d" % sa_fix for (_c, parts) in good]
+        rmc = run_sharded(model, mcs) if good else []
+        if isinstance(rmc, tuple):
+            ck.violation("C07/compiled/model-crash", "model driver failed: %s" % (rmc,), {"commands": mcs[:2], "broken": "model driver"}, no_input=True)
+            rmc = []
+        for (c, parts), m in zip(good, rmc):
+            fcmd = "F " + " ".join(parts[1].split()[:14])
+            ans = parts[2]
+            h = parts[3].split()
+            comp_stats["compiled"] += 1
+            t = parts[1].split()
+            comp_stats["by_arch"][t[0]] = comp_stats["by_arch"].get(t[0], 0) + 1
+            comp_stats["instructions"] += int(h[1]); comp_stats["sp_accesses"] += int(h[6])
+            comp_stats["with_spills_or_locals"] += 1 if int(t[9]) else 0
+            comp_stats["with_calls"] += 1 if int(t[4]) & 2 else 0
+            comp_stats["with_stack_args"] += 1 if int(t[14]) else 0
+            found = False
+            rep = {"command": c, "frame": fcmd, "impl": ans, "model": m, "handover": parts[3]}
+            for (k, w) in c07_oracle.judge(fcmd, ans, ck.seed):
+                if k == "refused":
+                    continue
+                stats["oracle_keys"][k] = stats["oracle_keys"].get(k, 0) + 1
+                if ck.violation(k, "[compiled function %s] %s" % (c, w), rep):
+                    found = True
+            if h[2] != "1" or h[3] != "1":
+                found |= ck.violation("C07/compiled/prolog-epilog-not-emit-helper-output", "%s -> the function's first/last instructions are not the emit_prolog/"
+                                      "emit_epilog output for its frame (%s)" % (c, parts[3]), rep)
+            if h[4] != "0":
+                found |= ck.violation("C07/compiled/write-to-unsaved-preserved-register", "%s -> %s instructions write a callee-saved register that the frame "
+                                      "does not save (%s)" % (c, h[4], h[7]), rep)
+            if h[5] != "0":
+                found |= ck.violation("C07/compiled/sp-access-outside-declared-areas", "%s -> %s sp-based memory operands of the body lie outside call area, "
+                                      "local area and stack arguments (%s)" % (c, h[5], h[7]), rep)
+            if canon_impl(ans) != m:
+                comp_stats["disagreements"] += 1
+                if not found:
+                    ck.violation("C07/correspondence/compiled/" + first_diff(canon_impl(ans), m).split(" ")[0],
+                                 "compiled function %r: its frame %r differs from the proven model\n impl : %s\n model: %s" % (c, fcmd, canon_impl(ans)[:600], m[:600]),
+                                 dict(rep, broken="correspondence of Frame model with the frame the Compiler hands over"), no_input=True)
+    stats["compiled_functions"] = comp_stats
 
     # spill-slot layout (rastack.cpp calculate_stack_frame): model vs implementation + independent disjointness monitor
     scmds = [gen_slots(rng) for _ in range(3000 if ck.tier == "quick" else 60000)]
@@ -247,8 +400,13 @@ def run(ck):
         for c, a in zip(scmds, rs):
             t = a.split()
             n = int(t[4]) if len(t) > 4 else 0
-            rec = [t[5 + 5 * i: 10 + 5 * i] for i in range(n)]
-            mc.append("S %d %s" % (n, " ".join("%s %s %s" % (r[1], r[2], r[3]) for r in rec)))
+            ct = c.split()
+            parts = []
+            for i in range(n):
+                ix, size, align, isarg, off = t[5 + 5 * i: 10 + 5 * i]
+                flags = int(ct[2 + 4 * int(ix) + 2]); use = ct[2 + 4 * int(ix) + 3]
+                parts.append("%s %s %s %d %s %s %s" % (ix, size, align, flags & 1, isarg, use, off))
+            mc.append("T %d %s %s" % (n, t[2] if len(t) > 2 else "0", " ".join(parts)))
             slot_stats["slots"] += n
         rms = run_sharded(model, mc)
         if isinstance(rms, tuple):
@@ -260,17 +418,27 @@ def run(ck):
                 if ck.violation(k, w, {"command": c, "impl": a, "model": m}):
                     found = True
             t = a.split(); n = int(t[4])
-            impl_offs = [("-1" if t[8 + 5 * i] == "1" else t[9 + 5 * i]) for i in range(n)]
+            impl_offs = [t[9 + 5 * i] for i in range(n)]
             mt = m.split("|")
-            model_offs = mt[0].split()[1:]
+            mh = mt[0].split()
+            order_ok, placed_ok, model_offs = mh[1], mh[2], mh[3:]
             fin = mt[1].split()
-            align = max(1, int(t[3]))
-            want_stack = (int(fin[0]) + align - 1) // align * align
-            if impl_offs != model_offs or want_stack != int(t[2]) or fin[1] != "0" or fin[2] != "0":
+            # stack-argument slots keep their own location: the model prints -1, the implementation leaves 0
+            model_offs = [("0" if (t[8 + 5 * i] == "1") else o) for i, o in enumerate(model_offs)]
+            if placed_ok != "1":
+                # verdict of the Coq-verified checker placed_ok (SlotFull.placed_ok_sound) on the implementation's own placement
+                if ck.violation("C07/slots/placement-rejected", "%s -> the verified checker rejects the implementation's placement %s" % (c, a[:500]),
+                                {"command": c, "impl": a, "model": m}):
+                    found = True
+            if order_ok != "1":
+                if ck.violation("C07/slots/order", "%s -> processing order is not a permutation of the slots sorted by non-decreasing weight (as the pinned sort produces): %s" % (c, a[:500]),
+                                {"command": c, "impl": a, "model": m}):
+                    found = True
+            if impl_offs != model_offs or fin[0] != t[2] or fin[1] != "0" or fin[2] != "0":
                 slot_stats["disagreements"] += 1
                 if not found:
                     ck.violation("C07/correspondence/slots", "calculate_stack_frame and the proven slot model disagree on %r\n impl : %s\n model: %s" % (c, a[:600], m[:600]),
-                                 {"command": c, "impl": a, "model": m, "broken": "correspondence of SlotModel.v with rastack.cpp"}, no_input=True)
+                                 {"command": c, "impl": a, "model": m, "broken": "correspondence of SlotModel.v/SlotFull.v with rastack.cpp"}, no_input=True)
     stats["slot_layouts"] = slot_stats
 
     # native execution on the host (x86-64 only)
@@ -305,7 +473,7 @@ def run(ck):
                  "mask classes, size/alignment boundaries, FP/calls/AVX/AVX-512 flags, SA register); a frame is non-trivial when the real prolog has at "
                  "least one instruction (distinct command lines counted)",
          "samples": samples, "distribution": stats, "model_vs_impl_disagreements": disagreements,
-         "frames_judged_by_oracle": len(verdicts), "traces_validated_against_impl": len(cmds)},
+         "tree_variant": {"a64_sa_register_fix": bool(sa_fix)}, "frames_judged_by_oracle": len(verdicts), "traces_validated_against_impl": len(cmds)},
         assumptions=["the C++ harness calls the real FuncDetail::init, FuncFrame::init/finalize and BaseEmitter::emit_prolog/emit_epilog of /repo's working tree",
                      "theorems are about the Gallina model (FrameModel.v) and the abstract machine (FrameMachine.v); the model is tied to the code by the "
                      "exact differential of this check; the machine's instruction semantics are trusted (validated by the python interpreter and native runs)",
